@@ -215,6 +215,11 @@ func init() {
 		Run: func(c *mon.Ctx, i int) {
 			x, y := gen.LongArrayPair(c.R)
 			c.Feature("long_array_pairs")
+			if i%4 == 3 {
+				// many hunks for one member next to members that appear, change and go: the order of the hunks matters
+				c18Patch(c, ref.ToJSON(map[string]any{"k": x, "m": 1.0, "gone": true}), ref.ToJSON(map[string]any{"a": 1.0, "k": y, "m": 2.0, "z": []any{}}))
+				return
+			}
 			c18Patch(c, ref.ToJSON(gen.Wrap(x, i%3)), ref.ToJSON(gen.Wrap(y, i%3)))
 		},
 	})
